@@ -218,7 +218,7 @@ func rowStr(r map[string]json.RawMessage, f string) string {
 func strText(l limbs) string {
 	var b strings.Builder
 	for _, x := range l {
-		b.WriteByte(byte('a' + x - 1))
+		b.WriteString([]string{"a", "b", "\u00e9"}[x-1]) // the alphabet of BV.tla: Rune(1..3) = 97, 98, 233
 	}
 	return b.String()
 }
